@@ -1360,7 +1360,14 @@ func (a *Agent) addCandidate(ctx context.Context, cand Candidate, candidateConn 
 		return err
 	}
 
-	return a.loop.Run(ctx, func(context.Context) {
+	var ctxErr error
+	if err := a.loop.Run(ctx, func(context.Context) {
+		// The gather cycle may have been canceled (Restart) between the check above
+		// and the moment the loop accepted this task: do not mix it into the new cycle.
+		if ctxErr = ctx.Err(); ctxErr != nil {
+			return
+		}
+
 		set := a.localCandidates[cand.NetworkType()]
 		for _, candidate := range set {
 			if candidate.Equal(cand) {
@@ -1393,7 +1400,11 @@ func (a *Agent) addCandidate(ctx context.Context, cand Candidate, candidateConn 
 		if !cand.filterForLocationTracking() {
 			a.candidateNotifier.EnqueueCandidate(cand)
 		}
-	})
+	}); err != nil {
+		return err
+	}
+
+	return ctxErr
 }
 
 func (a *Agent) setCandidateExtensions(cand Candidate) {
